@@ -77,8 +77,8 @@ NBody == Len(BodyTable)
 
 \* docstrings already in the text: 0 none, 1 'sq', 2 """dq""", 3 three physical lines,
 \* 4 '''ends in a quote"''', 5 r"""raw with backslash"""
-OrigDocs == 0..5
-OrigDocLen(dc) == IF dc = 0 THEN 0 ELSE IF dc = 3 THEN 3 ELSE 1
+OrigDocs == 0..6     \* (6: three physical lines like 3, the middle one holding white space only)
+OrigDocLen(dc) == IF dc = 0 THEN 0 ELSE IF dc \in {3, 6} THEN 3 ELSE 1
 
 \* documentation strings handed to set_doc: 11 plain, 12 two lines, 13 with ',
 \* 14 ending in ", 15 with the two characters \ n, 16 containing """, 17 ending in """
